@@ -163,12 +163,13 @@ func (_this *Encoder) OnBigInt(value *big.Int) {
 			_this.OnNegativeInt(uint64(-value.Int64()))
 			return
 		}
-		value = value.Neg(value)
-		if value.IsUint64() {
-			_this.OnNegativeInt(uint64(value.Uint64()))
+		// Work on a copy: the value belongs to the caller (when marshaling,
+		// it is the very *big.Int held by the object being marshaled).
+		magnitude := new(big.Int).Neg(value)
+		if magnitude.IsUint64() {
+			_this.OnNegativeInt(magnitude.Uint64())
 			return
 		}
-		value = value.Neg(value)
 		_this.writer.WriteTypedBigInt(cbeTypeNegInt, value)
 		return
 	}
